@@ -79,6 +79,12 @@ CLAIMED["C03"] = dict(
     technique="symbolic execution of real code (CrossHair+z3): payload bytes, close position, read sizes and would-block pattern as solver variables",
 )
 
+CLAIMED["C15"] = dict(
+    text="Bounded symbolic execution of the real AsyncStreamServer client coroutine, both request receivers, the async-generator actions and build_lowlevel_stream_server_handler on a deterministic loop (real task groups and timeout scopes) over an in-memory listener/transport: frames that are well-formed or malformed by solver choice, a solver-chosen sequence of events (loop iteration, client sends k bytes, time passes), handler shapes (1/2/unbounded requests per generator, yielded timeout None/0/5, on_connection coroutine or generator, handler closes the client). Asserted: requests and parse errors seen by the handler == reference decoding, in order, once, across generator restarts; TimeoutError only without a received complete request; every generator closed exactly once; transport closed and on_disconnection once; responses in order.",
+    design="4/C15",
+    technique="symbolic execution of real code (CrossHair+z3) over event schedules, feed sizes and frame validity on a deterministic asyncio loop",
+)
+
 NOT_APPLICABLE = {
     "C08": "TLS byte-transparency/encryption is decided inside OpenSSL's record layer (C code, cryptography): it cannot be executed symbolically by any installed engine; stubbing it would verify the stub, and running real OpenSSL realises every symbolic size (degenerates to concrete enumeration). See DESIGN.md section 5.",
     "C09": "Whether a cut at a byte offset of a real ciphertext stream yields SSLEOFError / SSLZeroReturnError / a protocol error is OpenSSL's partial-record parsing, not encodable; the EasyNetwork part is a three-way exception mapping. See DESIGN.md section 5.",
